@@ -25,6 +25,8 @@ package main
 
 import (
 	"bytes"
+	hbls "github.com/herumi/bls-go-binary/bls"
+	"0chain.net/chaincore/node"
 	"context"
 	"fmt"
 	"sort"
@@ -48,9 +50,15 @@ const (
 	tkBadSig
 	tkOtherHash
 	tkDup
+	tkDupRespelled // list entries: the valid ticket twice, second time with its signature in upper-case hex
+	tkValidUpper   // ticket message: the valid signature in upper-case hex
+	tkValidMiracl  // ticket message: the valid signature in MIRACL "(x,y)" form
+	tkOtherRound   // ticket message of X: valid signature of a miner of another magic block, round field mislabelled
 )
 
-var tkNames = []string{"-", "valid", "badsig", "otherhash", "dup"}
+const c31OtherRound = 1000 // a round governed by the second magic block (miners m0..m3 + X)
+
+var tkNames = []string{"-", "valid", "badsig", "otherhash", "dup", "dup-respelled", "VALID-UPPER", "valid-miracl", "valid-for-round-1000"}
 
 type c31msg struct {
 	Type string // BLOCK NOTAR NBLOCK TICKET
@@ -65,6 +73,9 @@ func (m c31msg) String() string {
 		if m.Who == 4 {
 			who = "outsider"
 		}
+		if m.Who == 5 {
+			who = "X"
+		}
 		return fmt.Sprintf("TICKET(%s,%s)", who, tkNames[m.Kind])
 	}
 	var parts []string
@@ -78,6 +89,9 @@ func (m c31msg) String() string {
 			parts = append(parts, fmt.Sprintf("m%d:%s", i, tkNames[v]))
 		}
 	}
+	if m.Type == "NOTARX" {
+		parts = append(parts, "X:valid-for-round-1000")
+	}
 	return m.Type + "[" + strings.Join(parts, " ") + "]"
 }
 
@@ -90,6 +104,7 @@ type c31env struct {
 	seed      int64
 	threshold int
 	outsider  *world.Actor
+	extra     *world.Actor // X: miner of the second magic block only
 	pubs      []string
 	sig       map[string]string // memo "who/kind" -> signature
 	refMemo   map[string]bool
@@ -101,6 +116,9 @@ func (e *c31env) ticket(who, kind int) *block.VerificationTicket {
 	if who < 4 {
 		id = e.w.Miners[who].ID
 	}
+	if who == 5 {
+		id = e.extra.ID
+	}
 	if s, ok := e.sig[k]; ok {
 		return &block.VerificationTicket{VerifierID: id, Signature: s}
 	}
@@ -109,8 +127,18 @@ func (e *c31env) ticket(who, kind int) *block.VerificationTicket {
 	switch {
 	case who == 4:
 		s, err = e.outsider.Scheme.Sign(e.H)
+	case who == 5:
+		s, err = e.extra.Scheme.Sign(e.H)
 	case kind == tkValid || kind == tkDup:
 		s, err = e.w.Miners[who].Scheme.Sign(e.H)
+	case kind == tkValidUpper:
+		s, err = e.w.Miners[who].Scheme.Sign(e.H)
+		s = strings.ToUpper(s)
+	case kind == tkValidMiracl:
+		s, err = e.w.Miners[who].Scheme.Sign(e.H)
+		if err == nil {
+			s = miraclForm(s)
+		}
 	case kind == tkBadSig:
 		s, err = e.outsider.Scheme.Sign(e.H) // right hash, wrong key
 	case kind == tkOtherHash:
@@ -132,6 +160,8 @@ func (e *c31env) tickets(list []int) []*block.VerificationTicket {
 			out = append(out, e.ticket(4, tkValid))
 		case v == tkDup:
 			out = append(out, e.ticket(i, tkValid), e.ticket(i, tkValid))
+		case v == tkDupRespelled:
+			out = append(out, e.ticket(i, tkValid), e.ticket(i, tkValidUpper))
 		default:
 			out = append(out, e.ticket(i, v))
 		}
@@ -158,6 +188,19 @@ func (e *c31env) refValid(vt *block.VerificationTicket) (int, bool) {
 		return i, ok
 	}
 	return -1, false
+}
+
+// miraclForm respells a herumi-serialised G1 signature as the "(x,y)" form wallets send.
+func miraclForm(sig string) string {
+	var s hbls.Sign
+	if err := s.DeserializeHexStr(sig); err != nil {
+		ev.Fatal("miracl form: %v", err)
+	}
+	f := strings.Fields(s.GetHexString()) // "1 x y"
+	if len(f) != 3 {
+		ev.Fatal("unexpected point text %q", s.GetHexString())
+	}
+	return "(" + f[1] + "," + f[2] + ")"
 }
 
 func (e *c31env) decodeBlock(list []int) *block.Block {
@@ -234,8 +277,43 @@ func c31worker(run *ev.Run, L int) {
 	so.Counters["threshold"] = int64(e.threshold)
 	so.Counters["workers"] = 1
 
+	// a second magic block for rounds >= 500: the same miners plus X (C31 hole (c): a ticket whose round
+	// field names a round in which its signer is a miner, for a block of a round in which it is not)
+	e.extra = world.DetKey("c31-extra-miner")
+	{
+		mb2 := m.MB.Clone()
+		mb2.StartingRound = 500
+		mb2.MagicBlockNumber = m.MB.MagicBlockNumber + 1
+		mb2.PreviousMagicBlockHash = m.MB.Hash
+		mb2.Hash = encryption.Hash("verif-c31-mb2")
+		x := node.Provider()
+		x.Type = node.NodeTypeMiner
+		x.ID = e.extra.ID
+		x.PublicKey = e.extra.PublicKey
+		x.Host, x.N2NHost, x.Port = "x.invalid", "x.invalid", 7999
+		if err := mb2.Miners.AddNode(x); err != nil {
+			ev.Fatal("mb2 add node: %v", err)
+		}
+		for _, n := range mb2.Miners.CopyNodes() {
+			n.SetStatus(node.NodeStatusInactive)
+		}
+		for _, n := range mb2.Sharders.CopyNodes() {
+			n.SetStatus(node.NodeStatusInactive)
+		}
+		m.MC.SetMagicBlock(mb2)
+		if m.MC.GetMiners(1).GetNode(e.extra.ID) != nil || m.MC.GetMiners(c31OtherRound).GetNode(e.extra.ID) == nil || m.MC.GetMiners(1).Size() != 4 {
+			ev.Fatal("second magic block not in place")
+		}
+	}
+	if _, ok := e.refValid(e.ticket(1, tkValidUpper)); !ok {
+		ev.Fatal("upper-case respelling is not a valid signature for the reference")
+	}
+	if _, ok := e.refValid(e.ticket(1, tkValidMiracl)); !ok {
+		ev.Fatal("MIRACL respelling is not a valid signature for the reference")
+	}
+
 	counter := 0
-	do := func(part string, seedSame bool, msgs []c31msg) {
+	do := func(part string, roundState string, msgs []c31msg) {
 		counter++
 		if counter%nsh != idx {
 			return
@@ -246,51 +324,61 @@ func c31worker(run *ev.Run, L int) {
 		if so.Capped != "" {
 			return
 		}
-		e.scenario(part, seedSame, msgs)
+		e.scenario(part, roundState, msgs)
 	}
 
-	// ---- part A
+	// ---- part A: every ticket list in every single-list delivery shape
 	var lists [][]int
-	for code := 0; code < 5*5*5*5*2; code++ {
+	for code := 0; code < 6*6*6*6*2; code++ {
 		l := make([]int, 5)
 		c := code
 		for i := 0; i < 4; i++ {
-			l[i] = c % 5
-			c /= 5
+			l[i] = c % 6
+			c /= 6
 		}
 		l[4] = c % 2
 		lists = append(lists, l)
 	}
 	sort.SliceStable(lists, func(i, j int) bool { return len(e.tickets(lists[i])) < len(e.tickets(lists[j])) })
 	empty := []int{0, 0, 0, 0, 0}
-	for _, seedSame := range []bool{true, false} {
-		for _, l := range lists {
-			do("A", seedSame, []c31msg{{Type: "BLOCK", List: l}})
-			do("A", seedSame, []c31msg{{Type: "BLOCK", List: empty}, {Type: "NOTAR", List: l}})
-			do("A", seedSame, []c31msg{{Type: "NOTAR", List: l}, {Type: "BLOCK", List: empty}})
-			do("A", seedSame, []c31msg{{Type: "NBLOCK", List: l}})
-			do("A", seedSame, []c31msg{{Type: "BLOCK", List: empty}, {Type: "NBLOCK", List: l}})
+	twoValid := []int{1, 1, 0, 0, 0}
+	for _, l := range lists {
+		for _, rs := range []string{"same-seed", "other-seed"} {
+			do("A", rs, []c31msg{{Type: "BLOCK", List: l}})
+			do("A", rs, []c31msg{{Type: "NBLOCK", List: l}})
+			do("A", rs, []c31msg{{Type: "BLOCK", List: empty}, {Type: "NBLOCK", List: l}})
 		}
+		do("A", "same-seed", []c31msg{{Type: "BLOCK", List: empty}, {Type: "NOTAR", List: l}})
+		do("A", "same-seed", []c31msg{{Type: "NOTAR", List: l}, {Type: "BLOCK", List: empty}})
+		// the block arrives before the node has a round object for it (mr == nil path), then something valid
+		do("A0", "absent", []c31msg{{Type: "BLOCK", List: l}})
+		do("A0", "absent", []c31msg{{Type: "BLOCK", List: l}, {Type: "TICKET", Who: 0, Kind: tkValid}})
+		do("A0", "absent", []c31msg{{Type: "BLOCK", List: l}, {Type: "TICKET", Who: 3, Kind: tkValid}})
+		do("A0", "absent", []c31msg{{Type: "BLOCK", List: l}, {Type: "NOTAR", List: twoValid}})
 	}
-	// ---- part B
+	// ---- part B: individual ticket messages
 	var letters []c31msg
 	for i := 0; i < 4; i++ {
-		for _, k := range []int{tkValid, tkBadSig, tkOtherHash} {
+		for _, k := range []int{tkValid, tkValidUpper, tkBadSig} {
 			letters = append(letters, c31msg{Type: "TICKET", Who: i, Kind: k})
 		}
 	}
-	letters = append(letters, c31msg{Type: "TICKET", Who: 4, Kind: tkValid})
+	letters = append(letters,
+		c31msg{Type: "TICKET", Who: 1, Kind: tkOtherHash},
+		c31msg{Type: "TICKET", Who: 1, Kind: tkValidMiracl},
+		c31msg{Type: "TICKET", Who: 4, Kind: tkValid},
+		c31msg{Type: "TICKET", Who: 5, Kind: tkOtherRound})
 	seq := make([]c31msg, L)
 	var recB func(pos int)
 	recB = func(pos int) {
 		if pos == L {
-			do("B", true, append([]c31msg{}, seq...))
+			do("B", "same-seed", append([]c31msg{}, seq...))
 			for bp := 0; bp <= L; bp++ {
 				var msgs []c31msg
 				msgs = append(msgs, seq[:bp]...)
 				msgs = append(msgs, c31msg{Type: "BLOCK", List: empty})
 				msgs = append(msgs, seq[bp:]...)
-				do("B", true, msgs)
+				do("B", "same-seed", msgs)
 			}
 			return
 		}
@@ -300,68 +388,90 @@ func c31worker(run *ev.Run, L int) {
 		}
 	}
 	recB(0)
-	// ---- part C
+	// ---- part C: mixed sequences
 	rep := [][]int{
 		{0, 0, 0, 0, 0},
-		{1, 1, 0, 0, 0},                // 2 valid
-		{0, 1, 1, 2, 0},                // 2 valid + 1 bad signature
-		{0, 1, 1, 1, 0},                // 3 valid
-		{0, 1, 4, 0, 0},                // 1 valid + duplicated valid (3 entries, 2 miners)
-		{0, 0, 0, 4, 1},                // duplicated valid + outsider (3 entries, 1 miner)
-		{3, 3, 3, 0, 0},                // 3 tickets valid for another hash
+		{1, 1, 0, 0, 0}, // 2 valid
+		{0, 1, 1, 2, 0}, // 2 valid + 1 bad signature
+		{0, 1, 1, 1, 0}, // 3 valid
+		{0, 1, 4, 0, 0}, // 1 valid + duplicated valid (3 entries, 2 miners)
+		{0, 0, 0, 4, 1}, // duplicated valid + outsider (3 entries, 1 miner)
+		{3, 3, 3, 0, 0}, // 3 tickets valid for another hash
+		{0, 1, 5, 0, 0}, // 1 valid + the same valid ticket in two spellings (3 entries, 2 miners)
 	}
 	var lettersC []c31msg
 	for _, l := range rep {
 		lettersC = append(lettersC, c31msg{Type: "BLOCK", List: l}, c31msg{Type: "NOTAR", List: l})
 	}
+	lettersC = append(lettersC, c31msg{Type: "NOTARX", List: twoValid}) // round-1000 notarization: 2 valid + X
 	for i := 0; i < 4; i++ {
 		lettersC = append(lettersC, c31msg{Type: "TICKET", Who: i, Kind: tkValid}, c31msg{Type: "TICKET", Who: i, Kind: tkBadSig})
 	}
-	var seqC []c31msg
-	var recC func()
-	recC = func() {
-		if len(seqC) > 0 {
-			do("C", true, append([]c31msg{}, seqC...))
-		}
-		if len(seqC) == 3 {
-			return
-		}
-		for _, l := range lettersC {
-			if l.Type == "BLOCK" {
-				has := false
-				for _, p := range seqC {
-					if p.Type == "BLOCK" {
-						has = true
+	lettersC = append(lettersC, c31msg{Type: "TICKET", Who: 1, Kind: tkValidUpper}, c31msg{Type: "TICKET", Who: 5, Kind: tkOtherRound})
+	for _, rs := range []string{"same-seed", "absent"} {
+		var seqC []c31msg
+		var recC func()
+		recC = func() {
+			if len(seqC) > 0 {
+				do("C", rs, append([]c31msg{}, seqC...))
+			}
+			if len(seqC) == 3 {
+				return
+			}
+			for _, l := range lettersC {
+				if rs == "absent" && len(seqC) == 0 && l.Type != "BLOCK" {
+					continue // without a round object only a block can arrive first (the ticket / notarization HTTP handlers create the round)
+				}
+				if l.Type == "BLOCK" {
+					has := false
+					for _, p := range seqC {
+						if p.Type == "BLOCK" {
+							has = true
+						}
+					}
+					if has {
+						continue
 					}
 				}
-				if has {
-					continue
-				}
+				seqC = append(seqC, l)
+				recC()
+				seqC = seqC[:len(seqC)-1]
 			}
-			seqC = append(seqC, l)
-			recC()
-			seqC = seqC[:len(seqC)-1]
 		}
+		recC()
 	}
-	recC()
 	writeShard(so)
 }
 
-func (e *c31env) scenario(part string, seedSame bool, msgs []c31msg) {
+func (e *c31env) scenario(part string, roundState string, msgs []c31msg) {
 	so := e.so
 	mc := e.m.MC
 	so.States++
 	e.m.reset()
 	mc.VerifResetNotarizationState()
-	mr := mc.CreateRound(round.NewRound(1))
-	mr = mc.AddRound(mr).(*miner.Round)
-	if seedSame {
-		mc.SetRandomSeed(mr, e.seed)
-	} else {
-		mc.SetRandomSeed(mr, e.seed+1)
+	// roundState "absent": the node has no round object for round 1 yet (processVerifyBlock's mr == nil path)
+	if roundState != "absent" {
+		mr := mc.CreateRound(round.NewRound(1))
+		mr = mc.AddRound(mr).(*miner.Round)
+		if roundState == "same-seed" {
+			mc.SetRandomSeed(mr, e.seed)
+		} else {
+			mc.SetRandomSeed(mr, e.seed+1)
+		}
 	}
 	e.w.Chain.VerifSetCurrentRound(2)
-	defer mr.CancelVerification()
+	defer func() {
+		for _, rn := range []int64{1, c31OtherRound} {
+			if r := mc.GetMinerRound(rn); r != nil {
+				r.CancelVerification()
+			}
+		}
+	}()
+	ensureRound := func(rn int64) { // what the ticket / notarization HTTP handlers do before queueing the message
+		if mc.GetMinerRound(rn) == nil {
+			mc.AddRound(mc.CreateRound(round.NewRound(rn)))
+		}
+	}
 
 	names := make([]string, len(msgs))
 	for i, m := range msgs {
@@ -382,9 +492,13 @@ func (e *c31env) scenario(part string, seedSame bool, msgs []c31msg) {
 			received = append(received, rb)
 			delivered = append(delivered, e.tickets(msg.List)...)
 			mc.VerifHandleNotarizedBlockMessage(e.m.Ctx, &miner.BlockMessage{Type: miner.MessageNotarizedBlock, Sender: e.m.minerNode(1), Block: rb})
-		case "NOTAR":
+		case "NOTAR", "NOTARX":
 			not := datastore.GetEntityMetadata("block_notarization").Instance().(*miner.Notarization)
 			not.BlockID, not.Round, not.VerificationTickets = e.H, 1, e.tickets(msg.List)
+			if msg.Type == "NOTARX" { // round field names a round of the second magic block, X's ticket included
+				not.Round = c31OtherRound
+				not.VerificationTickets = append(not.VerificationTickets, e.ticket(5, tkOtherRound))
+			}
 			not.Block = e.decodeBlock(nil) // the sender's copy (SendNotarization sets it; it is the entity's read lock)
 			delivered = append(delivered, not.VerificationTickets...)
 			rn := datastore.GetEntityMetadata("block_notarization").Instance().(*miner.Notarization)
@@ -416,6 +530,10 @@ func (e *c31env) scenario(part string, seedSame bool, msgs []c31msg) {
 			vt := e.ticket(msg.Who, msg.Kind)
 			delivered = append(delivered, vt)
 			bvt := &block.BlockVerificationTicket{VerificationTicket: *vt, Round: 1, BlockID: e.H}
+			if msg.Who == 5 {
+				bvt.Round = c31OtherRound
+			}
+			ensureRound(bvt.Round)
 			rt := datastore.GetEntityMetadata("block_verification_ticket").Instance().(*block.BlockVerificationTicket)
 			if err := datastore.FromJSON(bytes.NewReader(datastore.ToJSON(bvt).Bytes()), rt); err != nil {
 				ev.Fatal("ticket wire: %v", err)
@@ -453,37 +571,57 @@ func (e *c31env) scenario(part string, seedSame bool, msgs []c31msg) {
 				break
 			}
 		}
-		for _, nb := range mr.GetNotarizedBlocks() {
-			if nb.Hash == e.H {
-				notarized = true
-				where = append(where, "round.notarized-blocks")
+		for _, rn := range []int64{1, c31OtherRound} {
+			if r := mc.GetMinerRound(rn); r != nil {
+				for _, nb := range r.GetNotarizedBlocks() {
+					if nb.Hash == e.H {
+						notarized = true
+						where = append(where, fmt.Sprintf("round-%d.notarized-blocks", rn))
+					}
+				}
 			}
 		}
 		so.Evals++
 		if notarized && !wasNotarized && len(validMiners) < e.threshold {
 			// what do the tickets held by the block consist of?
-			unverified, dup := 0, 0
+			unverified, dup, otherRound, respelled := 0, 0, 0, 0
 			seen := map[string]bool{}
+			firstSig := map[string]string{}
 			for _, vt := range held {
 				_, ok := e.refValid(vt)
 				switch {
+				case vt.VerifierID == e.extra.ID:
+					otherRound++
 				case !ok:
 					unverified++
 				case seen[vt.VerifierID]:
 					dup++
+					if firstSig[vt.VerifierID] != vt.Signature {
+						respelled++
+					}
+				}
+				if !seen[vt.VerifierID] {
+					firstSig[vt.VerifierID] = vt.Signature
 				}
 				seen[vt.VerifierID] = true
 			}
 			class := "too-few-tickets"
-			if unverified > 0 {
+			if otherRound > 0 {
+				class = "ticket-of-another-rounds-miner-counted"
+			} else if unverified > 0 {
 				class = "unverifiable-tickets-counted"
+			} else if respelled > 0 {
+				class = "respelled-duplicate-ticket-counted"
 			} else if dup > 0 {
 				class = "duplicate-tickets-counted"
 			}
-			handler := map[string]string{"BLOCK": "processVerifyBlock", "NOTAR": "notarizationProcess", "NBLOCK": "handleNotarizedBlockMessage", "TICKET": "handleVerificationTicketMessage"}[msg.Type]
+			handler := map[string]string{"BLOCK": "processVerifyBlock", "NOTAR": "notarizationProcess", "NOTARX": "notarizationProcess", "NBLOCK": "handleNotarizedBlockMessage", "TICKET": "handleVerificationTicketMessage"}[msg.Type]
 			key := fmt.Sprintf("C31:%s:notarized-below-threshold:%s", handler, class)
+			if roundState == "absent" {
+				key += ":after-block-received-before-round-start"
+			}
 			so.violateSized(key, fmt.Sprintf("after %s the node treats block %s as notarized (%s) although only %d distinct miners have delivered a valid signature on its hash (threshold %d); the block holds %d tickets, of which %d do not verify and %d repeat a verifier", names[step], e.H[:8], strings.Join(where, ", "), len(validMiners), e.threshold, len(held), unverified, dup),
-				map[string]any{"part": part, "round_seed_equals_block_seed": seedSame, "messages": names, "failing_step": step, "threshold": e.threshold, "valid_distinct_miners": len(validMiners)},
+				map[string]any{"part": part, "round_state": roundState, "messages": names, "failing_step": step, "threshold": e.threshold, "valid_distinct_miners": len(validMiners)},
 				100*len(msgs)+len(delivered))
 		}
 		wasNotarized = notarized
@@ -491,7 +629,7 @@ func (e *c31env) scenario(part string, seedSame bool, msgs []c31msg) {
 		for _, m := range msgs[:step+1] {
 			shape = append(shape, m.Type)
 		}
-		so.Outcomes[fmt.Sprintf("%s/%s/valid-miners=%d/held=%d/notarized=%v", part, strings.Join(shape, ">"), len(validMiners), len(held), notarized)]++
+		so.Outcomes[fmt.Sprintf("%s/%s/%s/valid-miners=%d/held=%d/notarized=%v", part, roundState, strings.Join(shape, ">"), len(validMiners), len(held), notarized)]++
 	}
 	if so.States%503 == 1 {
 		so.sample(map[string]any{"part": part, "messages": names})
